@@ -32,6 +32,7 @@ import (
 type propCfg struct {
 	quick, thorough         int // simulated runs
 	quickRace, thoroughRace int // runs under the race detector (0 = no race binary)
+	coldQuick, coldThorough int // runs that each get a process of their own (process-wide lazily built state is fresh), plain and again under the race detector
 	level                   string
 	needsCLI                bool
 	acceptExitDeath         bool  // a worker killed by goalign's own ExitWithMessage (from a goroutine the harness cannot recover in) is an accepted outcome
@@ -45,31 +46,31 @@ type propCfg struct {
 var e1Assumptions = []string{"testing/synctest reports quiescence correctly (go1.26.8)", "a goroutine runs alone between two yield points except for the few instructions a goroutine woken through goalign's own channels executes before it parks", "the race detector's shadow memory (4 cells per 8 bytes) keeps the conflicting access: runs are kept small in race mode", "seeded search samples schedules, it does not enumerate them"}
 
 var props = map[string]propCfg{
-	"C16": {quick: 3000, thorough: 300000, quickRace: 800, thoroughRace: 60000, level: "exploration", stallS: 40, engine: "E1 seeded goroutine scheduler + race detector",
+	"C16": {quick: 3000, thorough: 300000, quickRace: 800, thoroughRace: 60000, coldQuick: 160, coldThorough: 4000, level: "exploration", stallS: 40, engine: "E1 seeded goroutine scheduler + race detector",
 		components:  "real: phaser.Phase, SeqBag.SequencesChan producer goroutine, worker pool, closer goroutine, pairwise aligner, translation, SeqBag.LongestORF; environment: the harness is the consumer of the result channel (one more scheduled goroutine), yield points spliced by seamgen; stubs: none",
 		assumptions: e1Assumptions},
-	"C02": {quick: 150000, thorough: 8000000, level: "exploration", stallS: 120, engine: "E2 simulated stream + real temp files + E1 seeded scheduler for the multi-alignment stream",
+	"C02": {quick: 150000, thorough: 8000000, coldQuick: 160, coldThorough: 4000, level: "exploration", stallS: 120, engine: "E2 simulated stream + real temp files + E1 seeded scheduler for the multi-alignment stream",
 		components:  "real: the 6 writers, the 6 lexers and parsers, utils.OpenWriteFile / CloseWriteFile / GetReader / GetReaderFromReader / ReadAlign / ParseAlignmentAuto / ParseMultiAlignmentsAuto incl. its parser goroutine and the close of the file, gzip and xz layers, real files in the run's temp directory; environment: simFile (fragmentation, empty reads, EOF style, close accounting), yield points spliced by seamgen; stubs: none",
 		assumptions: []string{"which characters a format can represent in a name is a table written from the statement and the format definitions (nameExtra in sim/c02.go): Nexus punctuation, '#' and '/' for Stockholm, '>' for FASTA are excluded; names equal to a format keyword are not generated", "no disk faults: the property does not quantify over them and goalign has no seam under os.Create/os.Open", "testing/synctest reports quiescence correctly (go1.26.8)"}},
-	"C14": {quick: 40000, thorough: 2000000, level: "exploration", stallS: 120, engine: "E3 map-iteration-order seam (in-process)",
+	"C14": {quick: 40000, thorough: 2000000, coldQuick: 160, coldThorough: 4000, level: "exploration", stallS: 120, engine: "E3 map-iteration-order seam (in-process)",
 		components:  "real: every statistic of align.Alignment / SeqBag / Sequence / CountProfile named by the property plus the operations that inherit the majority character (MaskUnique, MaskOccurences, Mask with MAJ, RemoveMajorityCharacterSites); environment: verifrt.Keys behind every `range` over a map (spliced by seamgen, order = PRNG keyed on map seed, site and call count); stubs: none",
 		assumptions: []string{"every map iteration of goalign goes through the seam: seamgen rewrites each range statement whose operand has map type and reports the count in coverage.seams", "floating sums are compared to 1e-12 relative: the statement's 'same answer' is not read as the last bit of a re-associated sum", "the naive definitions are evaluated on the simulated runs but owe nothing to the simulation; where the documentation is ambiguous (N/X in variable and informative sites, lower case in entropy) both readings are accepted or the clause is skipped"}},
-	"C10": {quick: 60000, thorough: 2000000, level: "exploration", stallS: 120, engine: "E3 seeded replay of the product's random stream under different map orders and clocks (in-process)",
+	"C10": {quick: 60000, thorough: 2000000, coldQuick: 160, coldThorough: 4000, level: "exploration", stallS: 120, engine: "E3 seeded replay of the product's random stream under different map orders and clocks (in-process)",
 		components:  "real: the 12 randomised operations of align.Alignment / SeqBag on top of the global math/rand stream seeded through rand.Seed as cmd/root.go does; environment: map-order and clock seams spliced by seamgen; stubs: none",
 		assumptions: []string{"the harness module sets godebug randseednop=0 so that rand.Seed seeds the global stream as it does in the shipped binary (built from a go 1.21 module)", "support claims: 400 product seeds per run, every required outcome has probability >= 1/6 per execution on correct code, so a missing outcome has probability below 1e-30 (union bound over at most 25 outcomes)", "fractions are dyadic and lengths multiples of 4 so that floor(frac*L) is the same in real and floating-point arithmetic"}},
-	"C01": {quick: 2000000, thorough: 150000000, level: "exploration", stallS: 120, engine: "E4 operation histories against a list-of-rows reference model",
+	"C01": {quick: 2000000, thorough: 150000000, coldQuick: 160, coldThorough: 4000, level: "exploration", stallS: 120, engine: "E4 operation histories against a list-of-rows reference model",
 		components:  "real: align.Alignment / align.SeqBag and every operation of the history (AddSequence, Append, Concat, Rename, RenameRegexp, CleanNames, TrimNames, TrimNamesAuto, AppendSeqIdentifier, Sort, ShuffleSequences, FilterLength, Deduplicate, RemoveGapSeqs, RemoveGapSites, TrimSequences, Translate, Clone, Sample, Clear, SubAlign, Unalign, Replace, ToUpper, ToLower, IgnoreIdentical) and all accessors; environment: the simulated client (history generator), per-operation random seeds, map-order seam; stubs: none",
 		assumptions: []string{"the reference model implements each operation from its documentation comment; where the comment does not fix the result (name cleaning / trimming, gap and character filters, translation, trimming) the operation is held to the invariants only and the model is re-read from the container", "by-name lookups are only compared for names that are unique in the container (the statement excepts names the caller made equal)", "no goroutine, stream or clock is involved: what is simulated is the client's history, including operations that must be rejected"}},
-	"C19": {quick: 400000, thorough: 20000000, level: "exploration", stallS: 120, engine: "E4 operation histories over a pool of live objects",
+	"C19": {quick: 400000, thorough: 20000000, coldQuick: 160, coldThorough: 4000, level: "exploration", stallS: 120, engine: "E4 operation histories over a pool of live objects",
 		components:  "real: the 7 writers, the statistics, Consensus, Entropy, Pssm, CountProfile, DistMatrix (its own goroutines, unscheduled here), protein MLDist, the pairwise aligner, LongestORF, Unalign, Transpose, BuildBootstrap, Clone, CloneSeqBag, SubAlign, SelectSites, Sequence.Clone and the in-place mutators; environment: the simulated client (history generator), map-order seam; stubs: none",
 		assumptions: []string{"independence is only demanded of what the statement names (clones, sub-alignments, site selections, cloned sequences); Sample, Append and SequenceChar share storage by design and are not alarmed", "DistMatrix and Phase under seeded schedules are covered by C08 and C16, whose runs snapshot their inputs; here DistMatrix runs with real unscheduled goroutines", "sequences that contain no ORF make Phase crash in a worker (outside C16's quantifier), so Phase is not part of these histories"}},
 	"C11": {quick: 5000, thorough: 300000, level: "exploration", stallS: 300, needsCLI: true, engine: "E3 process-level determinism (+ E1 seeded scheduler for the commands that own a worker pool)",
 		components:  "real: the goalign binary built from the working tree (default go toolchain, seam overlay inactive unless VERIF_MAPSEED / VERIF_CLOCK are set), real files, real OS pipes, real process exits; in sched mode cmd.RootCmd executed in-process with every goroutine of the command under the seeded scheduler; environment: map-order and clock seams, --threads, GOMAXPROCS; stubs: none",
 		assumptions: []string{"at process level the OS schedules goroutines: phase / phasent are therefore executed with one thread in both configurations there, and their thread clause is decided in sched mode under two seeded schedules", "stderr is not compared (log.Print stamps real time inside the standard library; warnings are not output)", "every map iteration and clock read of goalign goes through the seams (coverage.seams lists what seamgen rewrote)"}},
-	"C03": {quick: 2000000, thorough: 150000000, level: "fault_enumeration", stallS: 60, vlimitKB: 8 << 20, acceptExitDeath: true, engine: "E2 simulated stream with fault injection",
+	"C03": {quick: 2000000, thorough: 150000000, coldQuick: 160, coldThorough: 4000, level: "fault_enumeration", stallS: 60, vlimitKB: 8 << 20, acceptExitDeath: true, engine: "E2 simulated stream with fault injection",
 		components:  "real: the 6 lexers and 7 parsers (fasta, phylip strict/relaxed incl. ParseMultiple, nexus, clustal, stockholm, partition), utils.ParseAlignmentAuto, utils.ParseMultiAlignmentsAuto and its parser goroutine, bufio; environment: simFile (io.Reader + io.Closer: fragmentation, empty reads, EOF style, read errors, post-EOF read budget), os.Exit seam; stubs: none",
 		assumptions: []string{"a parser that asks the stream for more data 10000 times after the end was reported is looping (the budget is far above what bufio and the lexers need: they stop at the first EOF token)", "an out-of-memory death of a worker under an 8 GiB address-space limit counts as a crash caused by the input", "seeded search samples the fault space; only the stated sweeps (every prefix / every structural byte of the corpus files) are exhaustive"}},
-	"C08": {quick: 20000, thorough: 2000000, quickRace: 5000, thoroughRace: 400000, level: "exploration", stallS: 40, engine: "E1 seeded goroutine scheduler + race detector",
+	"C08": {quick: 20000, thorough: 2000000, quickRace: 5000, thoroughRace: 400000, coldQuick: 240, coldThorough: 6000, level: "exploration", stallS: 40, engine: "E1 seeded goroutine scheduler + race detector",
 		components:  "real: dna.DistMatrix, its producer/worker goroutines, sync.Mutex, sync.WaitGroup, channels, all 7 estimators; environment: model wrapper behind the public DistModel interface (delegates; injects errors), yield points spliced by seamgen; stubs: none",
 		assumptions: []string{"testing/synctest reports quiescence correctly (go1.26.8)", "a goroutine runs alone between two yield points except for the few instructions a goroutine woken through goalign's own channels executes before it parks", "the race detector's shadow memory (4 cells per 8 bytes) keeps the conflicting access: runs are kept to <= 66 pairs in race mode", "seeded search samples schedules, it does not enumerate them"}},
 }
@@ -284,10 +285,24 @@ func main() {
 		cleanup()
 		os.Exit(code)
 	}
-	total := sup.batch(false, runs)
+	total := sup.batch(false, runs, false)
 	if raceRuns > 0 {
-		r2 := sup.batch(true, raceRuns)
+		r2 := sup.batch(true, raceRuns, false)
 		total = mergeResults(total, r2, "race_")
+	}
+	cold := cfg.coldQuick
+	if *tier == "thorough" {
+		cold = cfg.coldThorough
+	}
+	if *runsF >= 0 && *runsF < cold {
+		cold = *runsF
+	}
+	if cold > 0 {
+		// one process per run: whatever goalign builds lazily, once per process, is built inside the simulated run
+		total = mergeResults(total, sup.batch(false, cold, true), "cold_")
+		if raceRuns > 0 {
+			total = mergeResults(total, sup.batch(true, cold, true), "cold_race_")
+		}
 	}
 	code := sup.conclude(total, t0, !*noEvidence)
 	cleanup()
@@ -721,7 +736,10 @@ func tail(s string, n int) string {
 
 // batch runs `runs` simulated runs over nw workers, restarting a worker after
 // the run that killed it.
-func (s *supervisor) batch(race bool, runs int) BatchResult {
+// coldBase: cold runs take their indices (and so their run seeds) from a range of their own.
+const coldBase = 1 << 40
+
+func (s *supervisor) batch(race bool, runs int, cold bool) BatchResult {
 	total := BatchResult{Stats: map[string]int64{}, ClassCount: map[string]int{}}
 	if runs <= 0 {
 		return total
@@ -738,6 +756,26 @@ func (s *supervisor) batch(race bool, runs int) BatchResult {
 		wg.Add(1)
 		go func() {
 			defer wg.Done()
+			if cold {
+				for i := w; i < runs; i += nw {
+					job := Job{Property: s.id, Mode: "batch", Tier: s.tier, Seed: s.seed, Start: coldBase + i, Stride: 1, Count: 1, Race: race}
+					wr := s.spawn(job, 30*time.Minute)
+					if !wr.died && !wr.stall && len(wr.res.Violations) == 0 {
+						os.RemoveAll(wr.dir)
+					}
+					results[w] = append(results[w], wr)
+					if wr.stall {
+						atomic.AddInt32(&s.stalls, 1)
+					}
+					if atomic.LoadInt32(&s.stalls) >= 6 {
+						break
+					}
+					if wr.died && wr.lastB == -2 {
+						die2("worker died outside a run:\n%s", tail(wr.stderr, 4000))
+					}
+				}
+				return
+			}
 			cnt := runs / nw
 			if w < runs%nw {
 				cnt++
@@ -835,6 +873,9 @@ func (s *supervisor) batch(race bool, runs int) BatchResult {
 	which := "plain"
 	if race {
 		which = "race"
+	}
+	if cold {
+		which = "cold " + which
 	}
 	logf("vcheck %s: %s batch: %d runs, %d non-trivial, %d distinct, %d candidate classes, %.1fs", s.id, which, total.Runs, total.Nontrivial, len(total.Sigs), len(total.ClassCount), total.WallS)
 	return total
